@@ -351,7 +351,7 @@ func (l jsonList) patch(pathBehind, pathAhead Path, before, removeValues, addVal
 
 	// Recursive case
 	if len(rest) > 0 {
-		if int(i) > len(l)-1 {
+		if int(i) < 0 || int(i) > len(l)-1 {
 			return nil, fmt.Errorf("patch index out of bounds: %v", i)
 		}
 		patchedNode, err := l[i].patch(append(pathBehind, n), rest, before, removeValues, addValues, after, strategy)
@@ -369,6 +369,10 @@ func (l jsonList) patch(pathBehind, pathAhead Path, before, removeValues, addVal
 		}
 		l = append(l, addValues...)
 		return l, nil
+	}
+
+	if int(i) < 0 || int(i) > len(l) {
+		return nil, fmt.Errorf("patch index out of bounds: %v", i)
 	}
 
 	// Check context before
